@@ -24,14 +24,9 @@ Proof. discriminate. Qed.
    stale bytes behind), a hand-written comparison, or a derive removed from a type shows here. *)
 Local Open Scope string_scope.
 Lemma structural_traits_pinned_C18 : structural_traits_C18 =
-  ["src/error.rs: InvalidPublicKeyError derives Debug";
-   "src/error.rs: MatchProofsError derives Debug";
-   "src/error.rs: NormalizedStringError derives Debug";
-   "src/error.rs: SrpError derives Debug";
-   "src/error.rs: UnsplitCryptoError derives Debug";
-   "src/key.rs: $name derives Clone Copy Debug Eq Hash Ord PartialEq PartialOrd";
-   "src/matrix_card.rs: MatrixCard derives Clone Debug Eq Hash Ord PartialEq PartialOrd";
-   "src/matrix_card.rs: MatrixCardPrinter derives Clone Debug";
-   "src/matrix_card.rs: MatrixCardVerifier derives Clone Debug";
-   "src/rc4.rs: Rc4 derives Clone Debug Eq Hash Ord PartialEq PartialOrd"].
+  ["src/key.rs: $name derives Clone Copy Eq Hash Ord PartialEq PartialOrd";
+   "src/matrix_card.rs: MatrixCard derives Clone Eq Hash Ord PartialEq PartialOrd";
+   "src/matrix_card.rs: MatrixCardPrinter derives Clone";
+   "src/matrix_card.rs: MatrixCardVerifier derives Clone";
+   "src/rc4.rs: Rc4 derives Clone Eq Hash Ord PartialEq PartialOrd"].
 Proof. reflexivity. Qed.
